@@ -36,7 +36,7 @@ TRUSTED_BASE = [
     "the Python correspondence harness: scripted generator, probe model, in-memory h5py stand-in, comparison tolerances "
     "(exact for integers/booleans/indices/copied values, 1e-9 relative for computed floats)",
     "floats modelled as real numbers in the theorems (rounding, overflow, u<=ar at 2^-53 not covered)",
-    "where Props/<id>_src.v exists: the fail-closed Python-ast translators tools/py2coq.py / tools/py2coq_num.py / tools/py2coq_h5.py / tools/py2coq_state.py, which regenerate "
+    "where Props/<id>_src.v exists: the fail-closed Python-ast translators tools/py2coq.py / tools/py2coq_num.py / tools/py2coq_h5.py / tools/py2coq_state.py / tools/py2coq_jump.py, which regenerate "
     "coq/theories/Gen/*.v from /repo's working tree on every run (Python's // and % rendered as Z.div / Z.modulo, chained comparisons as "
     "conjunctions, decimal literals as exact rationals over the reals, self.<attr> reads as parameters, a property whose getter is `return self._x` as the attribute _x); what they cannot render is omitted, "
     "so that its theorem fails",
@@ -69,7 +69,8 @@ SRC_SCOPE = {'theories/Gen/Src': ['C02', 'C08', 'C09', 'C13', 'C15', 'C19'], 'th
              'theories/SrcTie_pt': ['C09'], 'theories/SrcTie_chain': ['C08'], 'theories/Gen/SrcNum': ['C01', 'C03'], 'theories/SrcTie_mh': ['C01'],
              'theories/SrcTie_swap': ['C03'], 'theories/SrcSupport': ['C01', 'C03', 'C20'], 'theories/Gen/SrcAdapt': ['C13', 'C14'], 'theories/SrcTie_ss': ['C13', 'C14'],
              'theories/SrcTie_adapt': ['C13'], 'theories/Gen/SrcLadder': ['C17'], 'theories/SrcTie_ladder': ['C17'], 'theories/Gen/SrcCalls': ['C18'], 'theories/Gen/SrcRng': ['C04'], 'theories/Gen/SrcH5': ['C20'], 'theories/SrcTie_h5': ['C20'],
-             'theories/Gen/SrcState': ['C05', 'C16', 'C19'], 'theories/SrcTie_state': ['C05'], 'theories/SrcTie_reset': ['C19']}
+             'theories/Gen/SrcState': ['C05', 'C16', 'C19'], 'theories/SrcTie_state': ['C05'], 'theories/SrcTie_reset': ['C19'],
+             'theories/Gen/SrcJump': ['C02', 'C11', 'C12'], 'theories/SrcTie_jump': ['C02', 'C11', 'C12']}
 
 
 def translate_sources():
@@ -78,7 +79,8 @@ def translate_sources():
     rc2, out2 = sh('%s %s %s' % (sys.executable, os.path.join(VERIF, 'tools', 'py2coq_num.py'), os.path.join(THEORIES, 'Gen', 'SrcNum.v') + ' ' + os.path.join(THEORIES, 'Gen', 'SrcAdapt.v') + ' ' + os.path.join(THEORIES, 'Gen', 'SrcLadder.v')), timeout=120)
     rc3, out3 = sh('%s %s %s' % (sys.executable, os.path.join(VERIF, 'tools', 'py2coq_h5.py'), os.path.join(THEORIES, 'Gen', 'SrcH5.v')), timeout=120)
     rc4, out4 = sh('%s %s %s' % (sys.executable, os.path.join(VERIF, 'tools', 'py2coq_state.py'), os.path.join(THEORIES, 'Gen', 'SrcState.v')), timeout=120)
-    return '\n'.join(x.strip() for x in (out, out2, out3, out4) if x.strip())
+    rc5, out5 = sh('%s %s %s' % (sys.executable, os.path.join(VERIF, 'tools', 'py2coq_jump.py'), os.path.join(THEORIES, 'Gen', 'SrcJump.v')), timeout=120)
+    return '\n'.join(x.strip() for x in (out, out2, out3, out4, out5) if x.strip())
 
 
 def ensure_build():
